@@ -175,6 +175,10 @@ fn make_project(rng: &mut Rng) -> Project {
     if rng.chance(1, 3) {
         files.push(("missing.ts".to_string(), mk(&vec!["export type Q = { q: 1 };\n"], &none, &none)));
     }
+    // a second candidate for the specifier "./c": c/index.ts answers it until c.ts exists
+    if c_name == "c.ts" && rng.chance(1, 2) {
+        files.push(("c/index.ts".to_string(), mk(&vec!["export type C = { from: \"index\" };\n", "export type C = number;\nexport type NotThere = 0;\n"], &none, &none)));
+    }
     Project { files }
 }
 
@@ -182,7 +186,8 @@ fn gen_history(rng: &mut Rng, p: &Project) -> (Disk, Vec<Op>) {
     let mut disk = Disk::new();
     for (f, vs) in &p.files {
         // initial state: mostly valid; missing.ts and sometimes c start absent
-        let absent = f == "missing.ts" || (f.ends_with("c.ts") && rng.chance(1, 4));
+        let shadowed = f == "c.ts" && p.files.iter().any(|(n, _)| n == "c/index.ts");
+        let absent = f == "missing.ts" || (f.ends_with("c.ts") && rng.chance(1, if shadowed { 2 } else { 4 }));
         if !absent {
             let valid: Vec<usize> = (0..vs.len()).filter(|i| vs[*i].0 == "valid").collect();
             let i = if rng.chance(4, 5) { *rng.pick(&valid) } else { rng.below(vs.len()) };
